@@ -381,22 +381,37 @@ def stereo_mol_graph_to_rdmol(
                 Chem.HybridizationType.SP2
             )
 
-            if b_stereo.parity is None:
+            # reference atoms have to be real atoms: a lone pair placeholder
+            # is replaced by the other substituent of the same end, which
+            # turns cis (0, 4 or 1, 5) into trans (0, 5 or 1, 4)
+            ref1 = 0 if b_stereo.atoms[0] is not None else 1
+            ref2 = 4 if b_stereo.atoms[4] is not None else 5
+            rd_cis_trans = (
+                Chem.rdchem.BondStereo.STEREOZ
+                if ref2 - ref1 == 4
+                else Chem.rdchem.BondStereo.STEREOE
+            )
+
+            if (
+                b_stereo.parity is None
+                or b_stereo.atoms[ref1] is None
+                or b_stereo.atoms[ref2] is None
+            ):
                 rd_bond.SetStereo(Chem.rdchem.BondStereo.STEREONONE)
 
             elif (a1, a2) == (new_a1, new_a2):
                 rd_bond.SetStereoAtoms(
-                    map_num_idx_dict[b_stereo.atoms[0]],
-                    map_num_idx_dict[b_stereo.atoms[4]],
+                    map_num_idx_dict[b_stereo.atoms[ref1]],
+                    map_num_idx_dict[b_stereo.atoms[ref2]],
                 )
-                rd_bond.SetStereo(Chem.rdchem.BondStereo.STEREOZ)
+                rd_bond.SetStereo(rd_cis_trans)
 
             elif (a1, a2) == (new_a2, new_a1):
                 rd_bond.SetStereoAtoms(
-                    map_num_idx_dict[b_stereo.atoms[4]],
-                    map_num_idx_dict[b_stereo.atoms[0]],
+                    map_num_idx_dict[b_stereo.atoms[ref2]],
+                    map_num_idx_dict[b_stereo.atoms[ref1]],
                 )
-                rd_bond.SetStereo(Chem.rdchem.BondStereo.STEREOZ)
+                rd_bond.SetStereo(rd_cis_trans)
             else:
                 raise Exception(f"something wrong with {b_stereo}")
 
